@@ -315,7 +315,15 @@ def governing_conditions(an, bb):
     doms = an.doms(('normal',)).get(bb) or ()
     for d in doms:
         blk = an.b.blocks[d]
-        if blk.term.kind != 'switch' or blk.term.j.get('dty') != 'bool':
+        if blk.term.kind != 'switch':
+            continue
+        if blk.term.j.get('adt') == 'std::cmp::Ordering' and 'on' in blk.term.j:
+            # match a.cmp(&b) { Less => .., Equal => .., Greater => .. }
+            c = _ordering_condition(an, blk, bb, d)
+            if c:
+                out.append(c)
+            continue
+        if blk.term.j.get('dty') != 'bool':
             continue
         reach_by = []
         for lab, tgt in blk.term.switch_arms():
@@ -326,6 +334,39 @@ def governing_conditions(an, bb):
             if c:
                 out.append((c[0], c[1], c[2], d))
     return out
+
+
+def _deref_arg(an, op):
+    """`&x` passed as an argument -> an operand reading x"""
+    if op.kind == 'const' or op.place.proj:
+        return op
+    dd = an.single_def(op.place.local)
+    if dd and dd[0] == 'stmt' and dd[3].rv.kind == 'ref':
+        p = dd[3].rv.place
+        if tuple(p.proj) == ('*',):       # `&*r` (reborrow)
+            return _deref_arg(an, Operand({'c': {'l': p.local, 'pr': [], 'own': []}}))
+        return Operand({'c': {'l': p.local, 'pr': list(p.proj), 'own': list(p.own)}})
+    if dd and dd[0] == 'stmt' and dd[3].rv.kind == 'use':
+        return _deref_arg(an, dd[3].rv.ops[0])
+    return op
+
+
+def _ordering_condition(an, blk, bb, d):
+    on = Place(blk.term.j['on'])
+    if on.proj:
+        return None
+    dd = an.single_def(on.local)
+    if not dd or dd[0] != 'call' or not (dd[3].callee_names() & {'std::cmp::Ord::cmp'}) or len(dd[3].args) != 2:
+        return None
+    labs = set()
+    for lab, tgt in blk.term.switch_arms():
+        if lab in ('Less', 'Equal', 'Greater') and (tgt == bb or bb in an.reach([tgt], ('normal',), avoid=[d])):
+            labs.add(lab)
+    op = {frozenset(['Less']): 'Lt', frozenset(['Equal']): 'Eq', frozenset(['Greater']): 'Gt', frozenset(['Less', 'Equal']): 'Le',
+          frozenset(['Greater', 'Equal']): 'Ge', frozenset(['Less', 'Greater']): 'Ne'}.get(frozenset(labs))
+    if op is None:
+        return None
+    return (op, _deref_arg(an, dd[3].args[0]), _deref_arg(an, dd[3].args[1]), d)
 
 
 def implies_ge(op, a_is_lhs):
